@@ -49,6 +49,7 @@ PROPS = {
     },
     "C11": {
         "model_mm_filter": "result-kinds",   # hash / distance VALUES are C01's / C02's business (DESIGN §14)
+        "spec_mm_filter_ops": {"hstreamerr": "never"},   # a hard error after > MAX bytes is C12's clause
         "modules": [T + "C11", T + "TablesLimits"],
         "theorems": [(T + "C11.processed_len_spec", T + "C11"),
                      (T + "C11.counters_bounded", T + "C11"),
@@ -61,6 +62,8 @@ PROPS = {
         "spec_is_property": True,
         "streams": {
             "quick": [("default", "hugestream", 0), ("default", "core", 6000), ("embedded", "core", 2000), ("default-dev", "core", 3000),
+                      # bucket counters at and past 2^32 - 1 with overflow checks on: update must wrap them, not panic
+                      ("default-dev", "state", 400), ("default", "state", 400),
                       ("default", "hugepiece", 0), ("default-dev", "hugepiece", 0)],
             "thorough": [("default", "core", 60000), ("embedded", "core", 30000), ("naive", "core", 30000),
                          ("unsafe", "core", 30000), ("default-dev", "core", 30000), ("unsafe-dev", "core", 30000),
@@ -187,7 +190,7 @@ PROPS = {
         # C04 is about round trips and canonical text: WHICH error a rejected string gets is C05's business
         "spec_mm_filter": "acceptance",
         "streams": {
-            "quick": [(c, "fmt", 400) for c in ['default', 'optdef', 'embedded', 'quarter', 'mintab', 'hexsimd-only']] + [(c, "parse", 1500) for c in ['default', 'optdef', 'embedded', 'quarter', 'mintab', 'hexsimd-only']],
+            "quick": [("default", "parse-sweep", 24), ("optdef", "parse-sweep", 24), ("embedded", "parse-sweep", 24)] + [(c, "fmt", 400) for c in ['default', 'optdef', 'embedded', 'quarter', 'mintab', 'hexsimd-only']] + [(c, "parse", 1500) for c in ['default', 'optdef', 'embedded', 'quarter', 'mintab', 'hexsimd-only']],
             "thorough": [(c, "fmt", 10000) for c in ['default', 'optdef', 'embedded', 'quarter', 'mintab', 'hexsimd-only']] + [(c, "parse", 30000) for c in ['default', 'optdef', 'embedded', 'quarter', 'mintab', 'hexsimd-only']]
                         + [("unsafe", "fmt", 5000), ("naive", "fmt", 5000), ("default-dev", "fmt", 3000)],
         },
@@ -253,7 +256,10 @@ PROPS = {
                      (T + "C04.encode_eq_spec", T + "C04"), (T + "C04.tables", T + "C04")],
         "spec_is_property": True,
         "streams": {
-            "quick": [(c, "store", 6) for c in ["default", "optdef", "embedded", "quarter", "hexsimd-only"]] + [("default", "limits", 5)],
+            "quick": [(c, "store", 6) for c in ["default", "optdef", "embedded", "quarter", "hexsimd-only"]] + [("default", "limits", 5)]
+                     # the scalar encoders with debug assertions on (an `invariant!` about the output slice is a
+                     # debug_assert there)
+                     + [("optdef-dev", "store", 2), ("default-dev", "store", 2)],
             "thorough": [(c, "store", 200) for c in ["default", "optdef", "embedded", "quarter", "hexsimd-only",
                                                       "naive", "unsafe", "default-dev"]],
         },
@@ -492,7 +498,7 @@ PROPS = {
                                  "len", "stream", "cmpstr", "serde"],
         "panic_concrete": True,
         "streams": {
-            "quick": [('unsafe', 'gen', 600), ('unsafe', 'state', 600), ('unsafe', 'hist', 300), ('unsafe', 'parse', 1500), ('unsafe', 'fmt', 150), ('unsafe', 'frombin', 300), ('unsafe', 'store', 2), ('unsafe', 'acc', 300), ('unsafe', 'cmp', 1000), ('unsafe', 'body', 600), ('unsafe', 'len', 1000), ('unsafe', 'stream', 400), ('unsafe', 'cmpstr', 800), ('default-dev', 'gen', 300), ('default-dev', 'state', 300), ('default-dev', 'hist', 150), ('default-dev', 'parse', 750), ('default-dev', 'fmt', 75), ('default-dev', 'frombin', 150), ('default-dev', 'store', 1), ('default-dev', 'acc', 150), ('default-dev', 'cmp', 500), ('default-dev', 'body', 300), ('default-dev', 'len', 500), ('default-dev', 'stream', 200), ('default-dev', 'cmpstr', 400), ('unsafe-dev', 'gen', 300), ('unsafe-dev', 'state', 300), ('unsafe-dev', 'hist', 150), ('unsafe-dev', 'parse', 750), ('unsafe-dev', 'fmt', 75), ('unsafe-dev', 'frombin', 150), ('unsafe-dev', 'store', 1), ('unsafe-dev', 'acc', 150), ('unsafe-dev', 'cmp', 500), ('unsafe-dev', 'body', 300), ('unsafe-dev', 'len', 500), ('unsafe-dev', 'stream', 200), ('unsafe-dev', 'cmpstr', 400), ('unsafe', 'lie', 0), ('unsafe-dev', 'lie', 0), ('default', 'lie', 0), ('default-dev', 'lie', 0), ('unsafe-strict', 'serde', 150), ('unsafe-strict', 'frombin', 300)],
+            "quick": [('optdef-dev', 'store', 1), ('optdef-dev', 'parse', 300), ('optdef-dev', 'fmt', 40), ('optdef-dev', 'gen', 100), ('unsafe', 'gen', 600), ('unsafe', 'state', 600), ('unsafe', 'hist', 300), ('unsafe', 'parse', 1500), ('unsafe', 'fmt', 150), ('unsafe', 'frombin', 300), ('unsafe', 'store', 2), ('unsafe', 'acc', 300), ('unsafe', 'cmp', 1000), ('unsafe', 'body', 600), ('unsafe', 'len', 1000), ('unsafe', 'stream', 400), ('unsafe', 'cmpstr', 800), ('default-dev', 'gen', 300), ('default-dev', 'state', 300), ('default-dev', 'hist', 150), ('default-dev', 'parse', 750), ('default-dev', 'fmt', 75), ('default-dev', 'frombin', 150), ('default-dev', 'store', 1), ('default-dev', 'acc', 150), ('default-dev', 'cmp', 500), ('default-dev', 'body', 300), ('default-dev', 'len', 500), ('default-dev', 'stream', 200), ('default-dev', 'cmpstr', 400), ('unsafe-dev', 'gen', 300), ('unsafe-dev', 'state', 300), ('unsafe-dev', 'hist', 150), ('unsafe-dev', 'parse', 750), ('unsafe-dev', 'fmt', 75), ('unsafe-dev', 'frombin', 150), ('unsafe-dev', 'store', 1), ('unsafe-dev', 'acc', 150), ('unsafe-dev', 'cmp', 500), ('unsafe-dev', 'body', 300), ('unsafe-dev', 'len', 500), ('unsafe-dev', 'stream', 200), ('unsafe-dev', 'cmpstr', 400), ('unsafe', 'lie', 0), ('unsafe-dev', 'lie', 0), ('default', 'lie', 0), ('default-dev', 'lie', 0), ('unsafe-strict', 'serde', 150), ('unsafe-strict', 'frombin', 300)],
             "thorough": [('unsafe', 'gen', 12000), ('unsafe', 'state', 12000), ('unsafe', 'hist', 6000), ('unsafe', 'parse', 30000), ('unsafe', 'fmt', 3000), ('unsafe', 'frombin', 6000), ('unsafe', 'store', 40), ('unsafe', 'acc', 6000), ('unsafe', 'cmp', 20000), ('unsafe', 'body', 12000), ('unsafe', 'len', 20000), ('unsafe', 'stream', 8000), ('unsafe', 'cmpstr', 16000), ('default-dev', 'gen', 4800), ('default-dev', 'state', 4800), ('default-dev', 'hist', 2400), ('default-dev', 'parse', 12000), ('default-dev', 'fmt', 1200), ('default-dev', 'frombin', 2400), ('default-dev', 'store', 16), ('default-dev', 'acc', 2400), ('default-dev', 'cmp', 8000), ('default-dev', 'body', 4800), ('default-dev', 'len', 8000), ('default-dev', 'stream', 3200), ('default-dev', 'cmpstr', 6400), ('unsafe-dev', 'gen', 4800), ('unsafe-dev', 'state', 4800), ('unsafe-dev', 'hist', 2400), ('unsafe-dev', 'parse', 12000), ('unsafe-dev', 'fmt', 1200), ('unsafe-dev', 'frombin', 2400), ('unsafe-dev', 'store', 16), ('unsafe-dev', 'acc', 2400), ('unsafe-dev', 'cmp', 8000), ('unsafe-dev', 'body', 4800), ('unsafe-dev', 'len', 8000), ('unsafe-dev', 'stream', 3200), ('unsafe-dev', 'cmpstr', 6400), ('optdef-dev', 'gen', 2400), ('optdef-dev', 'state', 2400), ('optdef-dev', 'hist', 1200), ('optdef-dev', 'parse', 6000), ('optdef-dev', 'fmt', 600), ('optdef-dev', 'frombin', 1200), ('optdef-dev', 'store', 8), ('optdef-dev', 'acc', 1200), ('optdef-dev', 'cmp', 4000), ('optdef-dev', 'body', 2400), ('optdef-dev', 'len', 4000), ('optdef-dev', 'stream', 1600), ('optdef-dev', 'cmpstr', 3200), ('unsafe', 'lie', 0), ('unsafe-dev', 'lie', 0), ('default', 'lie', 0), ('default-dev', 'lie', 0), ('unsafe-strict', 'serde', 3000), ('unsafe-strict', 'frombin', 10000), ('unsafe', 'bodyrows', 8), ('unsafe', 'len-sweep', 0)],
         },
         "rule": "the broad streams of the other properties re-run in the `unsafe` release build and in dev builds "
